@@ -11,6 +11,7 @@ import (
 	"fmt"
 	"sort"
 	"strings"
+	"sync"
 	"testing"
 
 	gojose "github.com/go-jose/go-jose/v3"
@@ -534,5 +535,94 @@ func TestC17_LongForm(t *testing.T) {
 		}
 		st.Case(len(d.keys) >= 2 || tamperJSON > 0, did, labels...)
 		st.Sample("did", 2, func() interface{} { return map[string]interface{}{"did": clip(did, 600), "request": req} })
+	})
+}
+
+// TestC17_Concurrent: creation is deterministic and created DIDs resolve also when one VDR and one handler serve several
+// goroutines at once (the sequential results are the reference).
+func TestC17_Concurrent(t *testing.T) {
+	st := statsFor("C17")
+	v, err := longform.New()
+	if err != nil {
+		t.Fatal(err)
+	}
+	h, err := dochandler.New("did:ion")
+	if err != nil {
+		t.Fatal(err)
+	}
+	check(t, "C17", 12, func(t *rapid.T) {
+		n := rapid.IntRange(2, 8).Draw(t, "goroutines")
+		rounds := rapid.IntRange(2, 10).Draw(t, "rounds")
+		type job struct {
+			doc  *docdid.Doc
+			opts []vdrapi.DIDMethodOption
+			did  string
+			json string
+		}
+		var jobs []job
+		for len(jobs) < n {
+			d := genC17Doc(t)
+			upd, rec := genKey(t, "updateKey"), genKey(t, "recoveryKey")
+			if rec.Commitment(18) == upd.Commitment(18) {
+				upd = otherKey(t, rec)
+			}
+			opts := []vdrapi.DIDMethodOption{vdrapi.WithOption(longform.UpdatePublicKeyOpt, upd.Public()), vdrapi.WithOption(longform.RecoveryPublicKeyOpt, rec.Public())}
+			res, err := v.Create(d.doc, opts...)
+			if err != nil {
+				if strings.Contains(err.Error(), "exceeds maximum") {
+					continue
+				}
+				t.Fatalf("C17 VDR.Create refused an acceptable document: %v", err)
+			}
+			rr, err := h.ResolveDocument(res.DIDDocument.ID)
+			if err != nil {
+				t.Fatalf("C17 created DID does not resolve: %v", err)
+			}
+			rt, _ := jsonRoundTrip(rr)
+			jobs = append(jobs, job{d.doc, opts, res.DIDDocument.ID, refJCS(rt)})
+		}
+		errs := make(chan string, n)
+		var wg sync.WaitGroup
+		for i := range jobs {
+			wg.Add(1)
+			go func(j job) {
+				defer wg.Done()
+				defer func() {
+					if r := recover(); r != nil {
+						errs <- fmt.Sprintf("panic: %v", r)
+					}
+				}()
+				for r := 0; r < rounds; r++ {
+					res, err := v.Create(j.doc, j.opts...)
+					if err != nil {
+						errs <- fmt.Sprintf("Create fails for a document it accepted sequentially: %v", err)
+						return
+					}
+					if res.DIDDocument.ID != j.did {
+						errs <- fmt.Sprintf("Create gives another DID than sequentially:\n %s\n %s", j.did, res.DIDDocument.ID)
+						return
+					}
+					rr, err := h.ResolveDocument(j.did)
+					if err != nil {
+						errs <- fmt.Sprintf("created DID does not resolve: %v\n %s", err, j.did)
+						return
+					}
+					if rt, _ := jsonRoundTrip(rr); refJCS(rt) != j.json {
+						errs <- "resolution result differs from the sequential one for " + j.did
+						return
+					}
+					if _, err := v.Read(j.did); err != nil {
+						errs <- fmt.Sprintf("VDR.Read: %v", err)
+						return
+					}
+				}
+			}(jobs[i])
+		}
+		awaitWorkers(t, &wg, "C17 concurrent create / resolve")
+		close(errs)
+		for e := range errs {
+			t.Fatalf("C17 (with %d goroutines at the same time) %s", n, e)
+		}
+		st.Case(n >= 4, fmt.Sprint("concurrent|", n, rounds, jobs[0].did), "concurrent", fmt.Sprintf("goroutines-%d", n))
 	})
 }
